@@ -55,6 +55,11 @@ func (b Base) RenderParam(e *expr.Expression) (s string, params []any, err error
 
 	// if we are in a regular expression we need to convert the * to % and ? to _
 	if e.Op == expr.Like {
+		// a lone * is rendered inline by serializeParams (it marks an unbounded range end),
+		// as a pattern it is a value like any other
+		if len(rparams) == 0 && right == "'*'" {
+			right, rparams = "?", []any{"*"}
+		}
 		rval := rparams[0].(string)
 		// keep the regexp intact if it is a // regexp
 		if len(rval) < 4 || rval[0] != '/' || rval[len(rval)-1] != '/' {
